@@ -146,3 +146,19 @@ CHECKS["C06"] = {
     "level_text": "The rows a real engine selects are compared with a 15-line Kleene evaluator for every assignment of the atoms, for every tree shape up to the bound and every short call history, in every statement context that takes conditions. This is the truth-table comparison the property calls for.",
     "level_note": "Trusted: the Kleene model and SQLite 3.40.1's evaluation of the leaf forms. MySQL/Postgres renderings of conditions share the code path; their parenthesisation is covered by C05.",
 }
+
+CHECKS["C07"] = {
+    "parts": BASE,
+    "level": "exploration",
+    "technique": "runtime monitor: generated statements are executed on the real SQLite engine in inline form, in parameterised form with bound values, and as an independently written fully explicit reference rendering; acceptance, result rows and table snapshots must agree; clause-ablation sensitivity audit",
+    "rule": "statements from a scope-aware weighted generator over the fixture schema t1..t4 (SQLite-supported feature set: DISTINCT, expressions, aliases, FROM table/alias/subquery, INNER/LEFT/RIGHT/FULL/CROSS joins, WHERE, GROUP BY, HAVING, UNION/UNION ALL/INTERSECT/EXCEPT chains, ORDER BY with NULLS FIRST/LAST and FIELD order, LIMIT/OFFSET, inline and named window functions with frames, plain/recursive/[NOT] MATERIALIZED CTEs on all statement kinds, INSERT VALUES/SELECT/DEFAULT VALUES, REPLACE, ON CONFLICT variants, UPDATE..FROM, ORDER BY/LIMIT on UPDATE/DELETE, RETURNING); builder routes (column/expr, and_where/cond_where, join/join_as, ...) drawn at random; non-trivial = >= 3 clause kinds or a DML statement that changes rows; distinct = distinct reference texts",
+    "assumptions": [
+        "executions are made deterministic: LIMIT/OFFSET only with an ORDER BY over every output column, DML LIMIT ordered by the primary key, total window orders before ROWS frames, no RANDOM()/CURRENT_*; rows are compared as lists only when the order is total, else as multisets",
+        "engine-executed reals are non-integral dyadic values (an integral f64 such as 1.0 is inlined as `1`, an INTEGER literal, by design of Rust's float formatting; that spelling difference is outside this check)",
+        "INSERT..SELECT..ON CONFLICT gets a WHERE clause (SQLite's documented parsing ambiguity); a reference statement the engine rejects makes the case inconclusive, never a violation",
+    ],
+    "design_ref": "DESIGN.md §5 C07, Appendix D",
+    "level_text": "Only execution decides meaning: every generated statement runs three ways on the same in-memory database inside a savepoint and the outcomes (accept/reject, rows, RETURNING rows, snapshots of all tables, runtime errors) must be identical. The audit counters report, per clause kind, how often dropping that clause from the reference changes the outcome, i.e. how visible a dropped clause would be.",
+    "level_note": "Trusted: the reference renderer (refsql.rs, written from the SQLite grammar) and SQLite 3.40.1. Decides only the statements executed.",
+    "min_nontrivial": 500,
+}
